@@ -385,3 +385,18 @@ def documented_ast(attrs):
 def has_empty_key(attrs):
     """input class `=value` (an attribute that begins with `=`): parse_tag records the key "" and serialize() drops it"""
     return any(a.key == "" for a in attrs)
+
+
+def has_odd_translation(attrs):
+    """input class `_(` followed by something else than a quote: the next character is taken for the quote character, and the
+    character after the "closing quote" for the `)` - the part is serialised as `_(<c>...<c>)`, a different text"""
+    from django_components.util.tag_parser import TagValue
+    todo = [a.value for a in attrs]
+    while todo:
+        v = todo.pop()
+        if isinstance(v, TagValue):
+            if any(p.translation and p.quoted not in ("'", '"') for p in v.parts):
+                return True
+        else:
+            todo.extend(v.entries)
+    return False
